@@ -1,12 +1,17 @@
 """C12 — broker connection (broker/client.go): see coq/Broker/Conn.v, ConnSpec.v, coq/Props/C12.v."""
 import os, sys
 sys.path.insert(0, os.path.dirname(os.path.abspath(__file__)))
-import _bc, _sys
+import _bc, _sys, mb_common
 
 ASSUMPTIONS = _bc.ASSUMPTIONS
 
 
 def run(ck):
+    if ck.replay and any(l.startswith("hist ") for l in open(ck.replay).read().splitlines()):
+        # a witness of the backend stage
+        ck.coq()
+        backend_stage(ck, ["-replay", ck.replay])
+        return
     _bc.run_bc(ck, "c12", set("c12_will c15_in_order c20_closes".split()))  # the last two added by the audit (audit/C12.md), with the harness-side clauses c12_keepalive_armed / c12_keepalive_expiry
     if ck.replay:
         return
@@ -18,3 +23,31 @@ def run(ck):
     ck.rule = rule + "; plus whole broker (Engine + MemoryBackend over TCP loopback): the will (QoS 0/1/2) of a client ending by close / protocol error reaches an idle observer and an observer whose window is used up and whose queue is full at that moment exactly once (will_delivered), the backend is handed the will once (will_once), no will after DISCONNECT; keep-alive over TCP: clients that fall silent (keep-alive 1 s requested, or 60 s requested and 1 s imposed by the backend) are dropped and their wills published not before 1.35 s and in bounded time (keepalive_will), a client sending PINGREQ every 200 ms stays (keepalive_alive), a silent client subscribed to a topic fed every 100 ms is dropped all the same; observers of a will (QoS 0/1/2, retained or not): online, offline with a persistent session (exactly once after the reconnect for QoS>0), subscribing later (replayed with the retain flag iff retained) (will_delivered, will_retained); a client that stopped reading, with the broker's write towards it blocked, is still ended by its keep-alive and its will published (keepalive_will); a client with a retained will dying while an observer's SUBSCRIBE is being acknowledged (hook inside the acknowledgement): the observer gets the will exactly once (will_delivered)"
     if ex:
         ck.samples = ck.samples[:4] + [l for l in ex if l.startswith("direct ")][:3]
+    backend_stage(ck)
+
+
+def backend_stage(ck, extra=()):
+    # backend stage: the will reaches the backend as a Publish by a connection that is closing (broker/client.go cleanup); whether it
+    # is then "published" is the backend's doing.  The real MemoryBackend, operation by operation against Broker/Backend.v (families
+    # closewill: wills of the connections a backend shutdown ends, every QoS, retained / clearing, stored / temporary owners; ownwill: the
+    # owner's own persistent session subscribed to the will topic, displaced or shut down; ownfull: the owner's own queue full); only the
+    # steps the harness marks as will publications are judged here, by the delivery / acceptance / retained clauses of the backend spec.
+    if ck.build_harness("backend"):
+        os.environ["MB_FAMILY"] = "closewill,ownwill,ownfull"
+        try:
+            bpath, _ = ck.harness("mb", out_name="mb_for_c12.txt", extra=list(extra), timeout=3000)
+        finally:
+            os.environ.pop("MB_FAMILY", None)
+        blines = ck.model("backend", "mb", bpath)
+        bex = open(bpath).read().splitlines()
+        wills = mb_common.will_steps(bex)
+        judged = {"targets", "closing_accepted", "retained", "delivery", "offline_queue", "live_copy", "qos", "queue_full_atomic"}
+        for l in blines:
+            f = l.split()
+            if l.startswith("propfail ") and f[1] in wills and f[2] in judged:
+                ck.fail_input("backend_will_" + f[2], l, mb_common.history_lines(bex, f[1]))
+        ck.evaluations += len(wills)
+        ck.extra["backend_will_steps"] = len(wills)
+        ck.rule += ("; plus the backend stage (real MemoryBackend step by step against the model, families closewill, ownwill, ownfull): every Publish made by a "
+                    "closing connection (its will: after a backend Close, during a takeover) is accepted, reaches every matching session that outlives it - the "
+                    "owner's own persistent session included - and updates the retained store (backend_will_<clause>)")
